@@ -68,6 +68,19 @@ def gen_cases(tier, seed):
         orders = [[int(x) for x in rng.integers(0, 3, size=3)], [int(x) for x in rng.integers(0, 5, size=3)], [1, 0, 2]]
         cases.append({"shells": shells, "points": pts, "orders": orders, "transform": None,
                       "classes": classes + ["pt:many(%d)" % npts, "pt:center", "T:none", "lmax:%d" % max(ls)] + ["o:%d%d%d" % tuple(o) for o in orders], "cost": npts * 4})
+    # ... and a large grid with long general contractions of d/f shells (primitive x component x point arrays of 2e5..1e6)
+    for i in range(1 if tier == "quick" else 4):
+        rng = bases.rng_for("C05", seed, tier, "manypts-gen", i)
+        shells, classes = bases.rand_basis(rng, [2 + i % 2, 1 + i % 3], types=["p", "c"] if i % 2 == 0 else ["c", "p"], scale=1.0, emax_fn=lambda l: 20.0)
+        for s_ in shells:
+            e0 = min(s_["e"])
+            s_["e"] = [float(e0 * 2.3 ** j) for j in range(4)]
+            s_["k"] = [[float(0.2 + 0.3 * rng.random()), float(rng.normal())] for _ in range(4)]
+        npts = 9001 + 1000 * i
+        pts = (np.array(shells[0]["c"]) + rng.normal(size=(npts, 3)) * 1.5).tolist()
+        orders = [[0, 0, 0], [1, 0, 1], [0, 2, 0]]
+        cases.append({"shells": shells, "points": pts, "orders": orders, "transform": None,
+                      "classes": ["geom:general", "pt:many(%d)" % npts, "coef:general-K4M2", "T:none", "lmax:%d" % max(s_["l"] for s_ in shells)] + ["o:%d%d%d" % tuple(o) for o in orders], "cost": npts * 8})
     cases += bases.dup_variants("C05", seed, tier, cases, 7, ok=lambda c: c.get("transform") is None)  # one shell listed twice as the same object
     return cases
 
